@@ -166,6 +166,9 @@ pub struct Alph {
     pub after_disconnect: bool,
     /// values the application may pass to set_pingresp_recv_timeout() at any time
     pub set_pingresp_to: Vec<u64>,
+    /// option setters the application may call at any time (0 = set_auto_pub_response, 1 =
+    /// set_offline_publish); each toggles the current value
+    pub toggle_opts: Vec<u8>,
 }
 
 #[derive(Clone, Debug)]
@@ -243,6 +246,7 @@ pub enum Act {
     Closed,
     SetInterval(u8),
     SetPingrespTo(u8),
+    ToggleOpt(u8),
     Erase(u32),
     Acquire,
     Register(u32),
@@ -286,6 +290,7 @@ pub fn act_kind(a: &Act) -> String {
         Act::Closed => "Closed".into(),
         Act::SetInterval(_) => "SetInterval".into(),
         Act::SetPingrespTo(_) => "SetPingrespTo".into(),
+        Act::ToggleOpt(k) => format!("ToggleOpt({})", if *k == 0 { "auto_pub_response" } else { "offline_publish" }),
         Act::Erase(_) => "Erase".into(),
         Act::Acquire => "Acquire".into(),
         Act::Register(v) => format!("Register({})", if *v == 0 { "0" } else { "n" }),
@@ -392,6 +397,10 @@ pub struct Mdl {
     pub peer_disc: bool,
     /// current PINGRESP timeout setting (0 = none)
     pub pingresp_to: u64,
+    /// current option values (start from the configuration, may be toggled)
+    pub auto_pub: bool,
+    pub offline: bool,
+    pub opt_toggles: u8,
 }
 
 impl Mdl {
@@ -423,6 +432,9 @@ impl Mdl {
             owed_rel: BTreeSet::new(),
             peer_disc: false,
             pingresp_to: 0,
+            auto_pub: false,
+            offline: false,
+            opt_toggles: 0,
         }
     }
     pub fn new_session(&mut self) {
@@ -449,6 +461,7 @@ pub enum CallKind {
     Closed,
     SetInterval(Option<u64>),
     SetPingrespTo(u64),
+    SetOpt(u8, bool),
     Acquire(Result<u32, MqttError>),
     Register(u32, Result<(), MqttError>),
     Release(u32),
@@ -495,6 +508,7 @@ impl Call {
             CallKind::Closed => "notify_closed()".into(),
             CallKind::SetInterval(d) => format!("set_pingreq_send_interval({d:?})"),
             CallKind::SetPingrespTo(d) => format!("set_pingresp_recv_timeout({d})"),
+            CallKind::SetOpt(k, v) => format!("{}({v})", if *k == 0 { "set_auto_pub_response" } else { "set_offline_publish" }),
             CallKind::Acquire(r) => format!("acquire_packet_id() = {r:?}"),
             CallKind::Register(v, r) => format!("register_packet_id({v}) = {r:?}"),
             CallKind::Release(v) => format!("release_packet_id({v})"),
@@ -545,6 +559,8 @@ impl<P: Pid> Ep<P> {
         }
         let mut m = Mdl::new(cfg.ver, cfg.role);
         m.pingresp_to = cfg.pingresp_to;
+        m.auto_pub = cfg.auto_pub;
+        m.offline = cfg.offline;
         Ep { cfg, conn, m }
     }
 
@@ -601,18 +617,18 @@ impl<P: Pid> Ep<P> {
         let ver = self.ver();
         for ap in call.recvs().into_iter().cloned().collect::<Vec<_>>() {
             match &ap {
-                AP::Publish { qos: 1, pid: Some(id), .. } if !self.cfg.auto_pub => {
+                AP::Publish { qos: 1, pid: Some(id), .. } if !self.m.auto_pub => {
                     let code = if ver == Ver::V5 { match rep { 1 => Some(0x10), 2 => Some(0x80), _ => None } } else { None };
                     calls.push(self.lib_send(&AP::Ack { ver, kind: AckKind::Puback, pid: *id, code, props: None }));
                 }
-                AP::Publish { qos: 2, pid: Some(id), .. } if !self.cfg.auto_pub => {
+                AP::Publish { qos: 2, pid: Some(id), .. } if !self.m.auto_pub => {
                     let code = if ver == Ver::V5 { match rep { 1 => Some(0x10), 2 => Some(0x80), _ => None } } else { None };
                     calls.push(self.lib_send(&AP::Ack { ver, kind: AckKind::Pubrec, pid: *id, code, props: None }));
                 }
-                AP::Ack { kind: AckKind::Pubrel, pid, .. } if !self.cfg.auto_pub => {
+                AP::Ack { kind: AckKind::Pubrel, pid, .. } if !self.m.auto_pub => {
                     calls.push(self.lib_send(&AP::Ack { ver, kind: AckKind::Pubcomp, pid: *pid, code: None, props: None }));
                 }
-                AP::Ack { kind: AckKind::Pubrec, pid, code, .. } if !self.cfg.auto_pub => {
+                AP::Ack { kind: AckKind::Pubrec, pid, code, .. } if !self.m.auto_pub => {
                     if code.map(|c| c < 0x80).unwrap_or(true) {
                         if defer {
                             self.m.owed_rel.insert(*pid);
@@ -651,8 +667,8 @@ impl<P: Pid> Ep<P> {
         };
         let ver = self.m.ver.or(self.cfg.ver);
         // only cells that are refusals under both values of the store flag are judged here
-        let e1 = expect(self.cfg.role, ver, st, true, self.cfg.offline, ap0);
-        let e2 = expect(self.cfg.role, ver, st, false, self.cfg.offline, ap0);
+        let e1 = expect(self.cfg.role, ver, st, true, self.m.offline, ap0);
+        let e2 = expect(self.cfg.role, ver, st, false, self.m.offline, ap0);
         let mut rules = Rules { out, cfg: self.cfg.clone(), act: Act::SendProbe(i as u8) };
         if e1 != Exp::Refuse || e2 != Exp::Refuse {
             rules.label("c11.fanout-allowed");
@@ -1013,6 +1029,11 @@ impl<P: Pid> World for Ep<P> {
                 }
             }
         }
+        if m.opt_toggles < 2 {
+            for &k in &al.toggle_opts {
+                v.push(Act::ToggleOpt(k));
+            }
+        }
         if al.erase {
             // erase_stored_publish(id) for every stored entry: a stored PUBLISH is erased and its
             // identifier released; for a stored PUBREL (the exchange is past PUBREC) and for an
@@ -1072,7 +1093,7 @@ impl<P: Pid> World for Ep<P> {
                                 continue;
                             }
                             for dup in if al.peer_dup && q > 0 { vec![false, true] } else { vec![false] } {
-                                let reps: Vec<u8> = if q > 0 && al.reply_err && !c.auto_pub && self.v5() { vec![0, 1, 2] } else { vec![0] };
+                                let reps: Vec<u8> = if q > 0 && al.reply_err && !m.auto_pub && self.v5() { vec![0, 1, 2] } else { vec![0] };
                                 for rep in reps {
                                     v.push(Act::PPub { q, id, dup, t: t as u8, al: a, rep });
                                 }
@@ -1084,7 +1105,7 @@ impl<P: Pid> World for Ep<P> {
             for &k in &al.peer_acks {
                 for &id in &al.peer_ack_ids {
                     v.push(Act::PAck { kind: k, id, err: false, defer: false, nomatch: false });
-                    if k == AckKind::Pubrec && al.defer_pubrel && !c.auto_pub && m.ids.get(&id) == Some(&Owner::Pub2) {
+                    if k == AckKind::Pubrec && al.defer_pubrel && !m.auto_pub && m.ids.get(&id) == Some(&Owner::Pub2) {
                         v.push(Act::PAck { kind: k, id, err: false, defer: true, nomatch: false });
                     }
                     if al.peer_ack_err && self.v5() && matches!(k, AckKind::Puback | AckKind::Pubrec) {
@@ -1280,6 +1301,15 @@ impl<P: Pid> World for Ep<P> {
                 let d = self.cfg.alph.set_pingresp_to[*i as usize];
                 self.conn.set_pingresp_recv_timeout(d);
                 calls.push(Call { kind: CallKind::SetPingrespTo(d), evs: vec![] });
+            }
+            Act::ToggleOpt(k) => {
+                let v = if *k == 0 { !self.m.auto_pub } else { !self.m.offline };
+                if *k == 0 {
+                    self.conn.set_auto_pub_response(v);
+                } else {
+                    self.conn.set_offline_publish(v);
+                }
+                calls.push(Call { kind: CallKind::SetOpt(*k, v), evs: vec![] });
             }
             Act::Erase(id) => {
                 let evs = self.conn.erase_stored_publish(*id);
